@@ -27,7 +27,7 @@ import (
 
 type env interface {
 	peer(path string) *hx.Peer
-	settle()                                               // let the servers finish what they are doing
+	settle()                                                        // let the servers finish what they are doing
 	frames(resp *http.Response, x *memnet.Exchange, n int) []string // the next n SSE data payloads of an open stream ("<eof>" when it ended)
 }
 
@@ -186,7 +186,9 @@ func script(mk func(h http.Handler) env) {
 		{"no-get", []mcp.ServerOption{mcp.WithGetSSEEnabled(false)}},
 	} {
 		srv := mcp.NewServer("conf", "1", append([]mcp.ServerOption{mcp.WithServerLogger(hx.Nop{})}, cfg.opts...)...)
-		tools(func(t *mcp.Tool, h func(context.Context, *mcp.CallToolRequest) (*mcp.CallToolResult, error)) { srv.RegisterTool(t, h) })
+		tools(func(t *mcp.Tool, h func(context.Context, *mcp.CallToolRequest) (*mcp.CallToolResult, error)) {
+			srv.RegisterTool(t, h)
+		})
 		e := mk(srv.Handler())
 		p := e.peer("/mcp")
 		st := func(s string) string { return cfg.name + "/" + s }
@@ -229,7 +231,9 @@ func script(mk func(h http.Handler) env) {
 	}
 	// legacy SSE
 	ls := mcp.NewSSEServer("conf", "1", mcp.WithSSEServerLogger(hx.Nop{}))
-	tools(func(t *mcp.Tool, h func(context.Context, *mcp.CallToolRequest) (*mcp.CallToolResult, error)) { ls.RegisterTool(t, h) })
+	tools(func(t *mcp.Tool, h func(context.Context, *mcp.CallToolRequest) (*mcp.CallToolResult, error)) {
+		ls.RegisterTool(t, h)
+	})
 	e := mk(ls)
 	p := e.peer("/sse")
 	resp, x, err := p.Open(context.Background(), http.MethodGet, p.URL, "", nil, nil)
